@@ -261,6 +261,9 @@ pub fn check(c: &Case12, st: &mut Stats, bin: &std::path::Path, scratch: &std::p
         let (mut out, mut err) = (String::new(), String::new());
         let mut other = false;
         for l in got.lines() {
+            if l.starts_with(cal.log_prefix.as_str()) {
+                continue; // informational log line of the tool
+            }
             if let Some(x) = l.strip_prefix(cal.out_tag.as_str()) {
                 out.push_str(x);
             } else if let Some(x) = l.strip_prefix(cal.err_tag.as_str()) {
